@@ -1,5 +1,5 @@
 (* Property C14 - results are deterministic, independent of Go map iteration order. Map order is modelled as an adversarial permutation of the entry list. Statements only (proofs: Props.v, Rel.v, C14b.v). *)
-From Coq Require Import List String ZArith NArith Bool Permutation. From Bexpr Require Import Base Strconv Ast Univ Eval Props Rel Api C14b. Import ListNotations.
+From Coq Require Import List String ZArith NArith Bool Permutation. From Bexpr Require Import Base Strconv Ast Univ Eval KeyEq Props Rel Api C14b. Import ListNotations.
 
 Theorem c14_sort_keys_order_free :
   forall l l' : list string, Permutation l l' -> sort_keys l = sort_keys l'.
@@ -29,4 +29,53 @@ Theorem c14_filter_order_free :
   is_failure (execute re (Some ev) (Some (t, VMap n ka))) /\ is_failure (execute re (Some ev) (Some (t, VMap n kb))).
 Proof. exact C14b.c14_filter_order_free. Qed.
 Print Assumptions c14_filter_order_free.
+
+
+
+(* maps whose key type is not `string`, and reorderings at any depth (KeyEq.v: the lookup's key comparison is symmetric and transitive,
+   so among pairwise unequal keys at most one entry answers; Rel.veq_pmap) *)
+Open Scope string_scope.
+Theorem map_find_perm :
+  forall (kt : gtype) (k : gval) (ka kb : list (gval * gval)), keys_distinct kt ka -> Permutation ka kb -> map_find kt k ka = map_find kt k kb.
+Proof. exact KeyEq.map_find_perm. Qed.
+Print Assumptions map_find_perm.
+
+Theorem c14_keyed_map_order_free :
+  forall (re : string -> string -> option bool) (cfg : config) (e : expr) (t : gtype) (n : bool) (ka kb : list (gval * gval)),
+  hook cfg = None ->
+  type_eqb (key_type t) TString = false ->
+  keys_distinct (key_type t) ka -> Permutation ka kb -> eval re cfg [] e (Some (t, VMap n ka)) = eval re cfg [] e (Some (t, VMap n kb)).
+Proof. exact Rel.c14_keyed_map_order_free. Qed.
+Print Assumptions c14_keyed_map_order_free.
+
+Theorem c14_order_free_anywhere :
+  forall (re : string -> string -> option bool) (cfg : config) (e : expr) (d1 d2 : iface),
+  hook cfg = None -> rveq (if tagname cfg =? "" then "pointer" else tagname cfg) d1 d2 -> eval re cfg [] e d1 = eval re cfg [] e d2.
+Proof. exact Rel.c14_order_free_anywhere. Qed.
+Print Assumptions c14_order_free_anywhere.
+
+Theorem c14_keyed_premise_met :
+  let t := TMap (TInt I0) TString in
+  let ka := [(VInt 1, VStr "a"); (VInt 2, VStr "b")] in
+  let kb := [(VInt 2, VStr "b"); (VInt 1, VStr "a")] in
+  type_eqb (key_type t) TString = false /\ keys_distinct (key_type t) ka /\ Permutation ka kb /\ ka <> kb.
+Proof. exact Rel.c14_keyed_premise_met. Qed.
+Print Assumptions c14_keyed_premise_met.
+
+Theorem c14_nested_instance :
+  forall tn : string,
+  let tm := TMap TString (TInt I0) in
+  let ti := TMap (TInt I0) TString in
+  let t := TSlice TIface in
+  rveq tn
+    (Some
+       (t,
+        VSlice false
+          [VIface tm (VMap false [(VStr "a", VInt 1); (VStr "b", VInt 2)]); VIface ti (VMap false [(VInt 1, VStr "x"); (VInt 2, VStr "y")])]))
+    (Some
+       (t,
+        VSlice false
+          [VIface tm (VMap false [(VStr "b", VInt 2); (VStr "a", VInt 1)]); VIface ti (VMap false [(VInt 2, VStr "y"); (VInt 1, VStr "x")])])).
+Proof. exact Rel.c14_nested_instance. Qed.
+Print Assumptions c14_nested_instance.
 
